@@ -241,7 +241,8 @@ Section Refine.
       destruct (matches k x) eqn:M.
       - rewrite (H x (or_introl eq_refl) M). cbn. rewrite M, filter_app. f_equal.
         apply filter_true. intros y Hy. unfold p. rewrite (Hf x y Hy). apply (H x (or_introl eq_refl) M).
-      - cbn. destruct (p x); cbn; rewrite ?M, IH; auto; intros; apply H; auto.
+      - assert (IH' := IH (fun it Hi => H it (or_intror Hi))).
+        cbn. destruct (p x); cbn; rewrite ?M, IH'; reflexivity.
     Qed.
 
     Lemma alter_filter_out f d :
@@ -254,7 +255,8 @@ Section Refine.
       - rewrite (H x (or_introl eq_refl) M), filter_app.
         rewrite (filter_false p (f x)); auto.
         intros y Hy. unfold p. rewrite (Hf x y Hy). apply (H x (or_introl eq_refl) M).
-      - cbn. destruct (p x); rewrite IH; auto; intros; apply H; auto.
+      - assert (IH' := IH (fun it Hi => H it (or_intror Hi))).
+        cbn. destruct (p x); rewrite IH'; reflexivity.
     Qed.
 
     Lemma kact_filter_in a d :
@@ -292,8 +294,8 @@ Section Refine.
   Lemma upd_at_map_seq (F : nat -> dict) (g : dict -> dict) a len j :
     upd_at j g (map F (seq a len)) = map (fun i => if Nat.eqb i (a + j) then g (F i) else F i) (seq a len).
   Proof.
-    revert a j. induction len as [|len IH]; intros a j; cbn [seq map upd_at]; auto.
-    destruct j as [|j].
+    revert a j. induction len as [|len IH]; intros a j; [destruct j; reflexivity|].
+    destruct j as [|j]; cbn [seq map upd_at].
     - replace (a + 0)%nat with a by lia. rewrite Nat.eqb_refl. f_equal.
       apply map_ext_in. intros i Hi. apply in_seq in Hi.
       destruct (Nat.eqb i a) eqn:E; auto. apply Nat.eqb_eq in E. lia.
@@ -324,7 +326,7 @@ Section Refine.
   Proof. intros Hn. rewrite fan_len_merge. unfold d_len. rewrite (Permutation_length (split_perm n d Hn)). reflexivity. Qed.
 
   (* _remove visits every shard exactly once, in order: shard i becomes f(shard i), the total is the sum *)
-  Lemma remove_visit_spec f l acc :
+  Lemma remove_visit_spec (f : dict -> dict * Z) l acc :
     fold_left (fun acc s => let '(s', c) := f s in (fst acc ++ [s'], snd acc + c)) l acc =
     (fst acc ++ map (fun s => fst (f s)) l, snd acc + sumZ (map (fun s => snd (f s)) l)).
   Proof.
@@ -333,7 +335,7 @@ Section Refine.
     - destruct (f s) as [s' c] eqn:E. rewrite IH. cbn [fst snd]. rewrite <- app_assoc. cbn. f_equal. lia.
   Qed.
 
-  Lemma fan_remove_spec f st :
+  Lemma fan_remove_spec (f : dict -> dict * Z) st :
     fan_remove f st = (map (fun s => fst (f s)) st, sumZ (map (fun s => snd (f s)) st)).
   Proof.
     unfold fan_remove, remove_visit.
@@ -366,19 +368,21 @@ Section Refine.
   (* iteration: every stored key exactly once *)
   Lemma fan_iter_perm n d : 0 < n -> Permutation (fan_iter agg_iter_t (split n d)) (d_keys d).
   Proof.
-    intros Hn. unfold fan_iter. cbn [agg_iter_t it_shards it_each range each].
-    unfold d_keys. rewrite <- concat_map. apply Permutation_map. apply (split_perm n d Hn).
+    intros Hn. unfold fan_iter. cbn [agg_iter_t it_shards it_each range].
+    change (each EachForward) with (map i_key). change (d_keys d) with (map i_key d).
+    match goal with |- Permutation ?x _ => replace x with (map i_key (concat (split n d))) by apply concat_map end.
+    apply Permutation_map. apply (split_perm n d Hn).
   Qed.
 
   Lemma fan_reversed_perm n d : 0 < n -> Permutation (fan_iter agg_reversed_t (split n d)) (rev (d_keys d)).
   Proof.
-    intros Hn. unfold fan_iter. cbn [agg_reversed_t it_shards it_each range each].
-    rewrite <- map_rev.
-    replace (map (fun s => rev (d_keys s)) (rev (split n d))) with (map (@rev pyval) (rev (map d_keys (split n d)))).
-    2:{ rewrite <- map_rev, map_map. reflexivity. }
-    rewrite concat_rev_rev. eapply Permutation_trans; [apply Permutation_sym, Permutation_rev|].
-    eapply Permutation_trans; [|apply Permutation_rev].
-    unfold d_keys. rewrite <- concat_map. apply Permutation_map. apply (split_perm n d Hn).
+    intros Hn. unfold fan_iter. cbn [agg_reversed_t it_shards it_each range].
+    change (each EachBackward) with (fun s : dict => rev (map i_key s)). change (d_keys d) with (map i_key d).
+    match goal with |- Permutation ?x _ => replace x with (rev (map i_key (concat (split n d)))) end.
+    - eapply Permutation_trans; [apply Permutation_sym, Permutation_rev|].
+      eapply Permutation_trans; [|apply Permutation_rev].
+      apply Permutation_map. apply (split_perm n d Hn).
+    - rewrite (concat_map i_key (split n d)), <- concat_rev_rev, <- map_rev, map_map. reflexivity.
   Qed.
 
   (* ---- one key-addressed call ---- *)
@@ -397,7 +401,9 @@ Section Refine.
     2:{ symmetry. apply orb_false_iff. split; [apply Z.ltb_ge|apply Z.leb_gt]; lia. }
     set (j := Z.to_nat (hashf k mod n)).
     assert (Hj : (j < Z.to_nat n)%nat) by (unfold j; lia).
-    unfold Fanout.split at 1. rewrite (nth_map_seq _ [] 0 (Z.to_nat n) j Hj). cbn [Nat.add].
+    assert (Hnth : nth j (split n d) [] = filter (fun it => Nat.eqb (route n it) j) d).
+    { unfold Fanout.split. rewrite nth_map_seq by exact Hj. reflexivity. }
+    rewrite Hnth.
     rewrite (bridge_call_shard m dg env _ Hd).
     set (q := fun key : pyval => Nat.eqb (Z.to_nat (hashf key mod n)) j).
     assert (Hin : forall it, In it d -> matches k it = true -> q (i_key it) = true).
@@ -441,13 +447,17 @@ Section Refine.
     | _, _ => r = r'
     end.
 
+  Lemma res_agree_refl r : res_agree r r.
+  Proof. destruct r; cbn; auto. Qed.
+
   Lemma alter_keys_in m f d :
     keys_in d -> (forall it y, In y (f it) -> i_key y = i_key it) -> keys_in (alter m f d).
   Proof.
-    intros H Hf. induction d as [|x d IH]; cbn; auto. inversion H; subst.
-    destruct (m x).
-    - apply Forall_app. split; auto. apply Forall_forall. intros y Hy. rewrite (Hf x y Hy). assumption.
-    - constructor; auto.
+    unfold keys_in. intros H Hf. induction d as [|x d IH]; cbn; auto.
+    inversion H as [|? ? Hx Hd]; subst. destruct (m x).
+    - apply Forall_app. split; [|exact Hd].
+      apply Forall_forall. intros y Hy. rewrite (Hf x y Hy). exact Hx.
+    - constructor; [exact Hx|]. apply IH. exact Hd.
   Qed.
 
   Lemma dict_step_keys_in op d :
@@ -474,22 +484,240 @@ Section Refine.
   Proof.
     intros Hn Hr Hd Hk. destruct op as [m env| | |now|tg| |]; cbn [Fanout.fan_step Fanout.dict_step].
     - destruct (deleg_of m) as [dg|] eqn:Hdg.
-      + eexists. split; [|reflexivity]. apply fan_keyed_split; auto.
+      + eexists. split; [|apply res_agree_refl]. apply fan_keyed_split; auto.
         intros it Hi Hm. apply Hr.
-        * revert it Hi. apply Forall_forall. exact Hd.
+        * exact (proj1 (Forall_forall _ _) Hd it Hi).
         * apply Hk. reflexivity.
         * symmetry. apply matches_cls. exact Hm.
-      + eexists. split; [|reflexivity]. destruct m; try discriminate; reflexivity.
-    - eexists. split; [|reflexivity]. cbn [fst snd]. rewrite fan_len_split; auto.
+      + eexists. split; [|apply res_agree_refl]. destruct m; try discriminate; reflexivity.
+    - eexists. split; [|apply res_agree_refl]. cbn [fst snd]. rewrite fan_len_split; auto.
     - destruct (bridge_removals nocull 0 (VInt 0)) as (-> & _).
-      rewrite fan_remove_clear by assumption. eexists. split; reflexivity.
+      rewrite fan_remove_clear by assumption. eexists. split; [reflexivity|apply res_agree_refl].
     - destruct (bridge_removals nocull now (VInt 0)) as (_ & -> & _).
       unfold d_expire. rewrite (fan_remove_filter n (live now) (fun it => negb (live now it)) d Hn).
-      eexists. split; reflexivity.
+      eexists. split; [reflexivity|apply res_agree_refl].
     - destruct (bridge_removals nocull 0 tg) as (_ & _ & -> & _).
       unfold d_evict. rewrite (fan_remove_filter n (fun it => negb (tagged tg it)) (tagged tg) d Hn).
-      eexists. split; reflexivity.
+      eexists. split; [reflexivity|apply res_agree_refl].
     - eexists. split; [reflexivity|]. cbn [snd res_agree]. apply fan_iter_perm; auto.
     - eexists. split; [reflexivity|]. cbn [snd res_agree]. apply fan_reversed_perm; auto.
   Qed.
+  Theorem fan_refines n ops d :
+    0 < n -> routing_respects n -> keys_in d -> ops_in ops ->
+    exists outs, fan_run n ops (split n d) = (split n (fst (dict_run ops d)), outs) /\
+                 Forall2 res_agree outs (snd (dict_run ops d)).
+  Proof.
+    intros Hn Hr. revert d. induction ops as [|op ops IH]; intros d Hd Hops; cbn [Fanout.fan_run Fanout.dict_run].
+    - exists []. split; [reflexivity|constructor].
+    - inversion Hops as [|? ? Hop Hrest]; subst.
+      destruct (fan_step_split n op d Hn Hr Hd Hop) as [r [E A]]. rewrite E.
+      pose proof (dict_step_keys_in op d Hd Hop) as Hd'.
+      destruct (dict_step op d) as [d' x]. cbn [fst snd] in *.
+      destruct (IH d' Hd' Hrest) as [outs [E' A']]. rewrite E'.
+      destruct (dict_run ops d') as [d'' xs]. cbn [fst snd] in *.
+      exists (r :: outs). split; [reflexivity|constructor; assumption].
+  Qed.
 End Refine.
+
+(* ---------------- C13_refines: histories from the empty cache ---------------- *)
+Definition fan_empty (n : Z) : list dict := repeat [] (Z.to_nat n).
+
+Lemma split_nil hashf n : split hashf n [] = fan_empty n.
+Proof.
+  unfold split, fan_empty. cbn [filter]. generalize 0%nat. induction (Z.to_nat n) as [|k IH]; intros a; cbn; auto.
+  f_equal. apply IH.
+Qed.
+
+Definition history_keys (ops : list fop) : list pyval :=
+  flat_map (fun op => match op_key op with Some k => [k] | None => [] end) ops.
+
+Lemma ops_in_history ops : ops_in (fun k => In k (history_keys ops)) ops.
+Proof.
+  unfold ops_in. apply Forall_forall. intros op Hop k Hk. unfold history_keys. apply in_flat_map.
+  exists op. split; auto. rewrite Hk. left. reflexivity.
+Qed.
+
+(* A sharded cache is observably one cache.  For every key identity (class function cls with a decidable
+   equality), every shard count n >= 1 and every sequence of operations started on the empty cache: if routing
+   respects key identity on the keys of the history, then
+     - every operation returns what ONE dictionary returns (iterations: the same keys, each exactly once),
+     - the shards together hold exactly the items of that dictionary (merge is a permutation of it), and
+     - each shard holds, in the dictionary's order, exactly the items routed to it. *)
+Theorem refines_history (C : Type) (ceqb : C -> C -> bool) (cls : pyval -> C) (hashf : pyval -> Z) :
+  (forall a b, ceqb a b = true <-> a = b) ->
+  forall n ops, 0 < n ->
+  (forall k1 k2, In k1 (history_keys ops) -> In k2 (history_keys ops) -> cls k1 = cls k2 ->
+                 hashf k1 mod n = hashf k2 mod n) ->
+  Forall2 res_agree (snd (fan_run C ceqb cls hashf n ops (fan_empty n))) (snd (dict_run C ceqb cls ops [])) /\
+  Permutation (merge (fst (fan_run C ceqb cls hashf n ops (fan_empty n)))) (fst (dict_run C ceqb cls ops [])) /\
+  fst (fan_run C ceqb cls hashf n ops (fan_empty n)) = split hashf n (fst (dict_run C ceqb cls ops [])).
+Proof.
+  intros Hc n ops Hn Hr.
+  destruct (fan_refines C ceqb cls Hc hashf (fun k => In k (history_keys ops)) n ops [] Hn Hr) as [outs [E A]].
+  - constructor.
+  - apply ops_in_history.
+  - rewrite split_nil in E. rewrite E. cbn [fst snd]. repeat split; auto. apply split_perm. exact Hn.
+Qed.
+
+Example refines_hyps_satisfiable :
+  let hashf := fun k : pyval => match k with VInt z => z | _ => 7 end in
+  let ops := [FKeyed MSet {| a_key := VInt 5; a_value := VInt 1; a_expire := Some 10; a_tag := None; a_delta := 0;
+                            a_idefault := None; a_now := 0 |};
+              FKeyed MSet {| a_key := VStr [97]; a_value := VInt 2; a_expire := None; a_tag := None; a_delta := 0;
+                            a_idefault := None; a_now := 1 |};
+              FKeyed MGet {| a_key := VInt 5; a_value := VInt 0; a_expire := None; a_tag := None; a_delta := 0;
+                            a_idefault := None; a_now := 11 |}; FLen; FIter] in
+  (forall k1 k2, In k1 (history_keys ops) -> In k2 (history_keys ops) -> k1 = k2 -> hashf k1 mod 3 = hashf k2 mod 3) /\
+  snd (fan_run pyval pv_same (fun k => k) hashf 3 ops (fan_empty 3)) =
+    [RBool true; RBool true; RDefault; RCount 2; RKeys [VStr [97]; VInt 5]].
+Proof. split; [intros; subst; reflexivity|vm_compute; reflexivity]. Qed.
+
+(* aggregate methods cover every shard exactly once *)
+Theorem aggregates_cover_each_shard_once :
+  (forall st, fan_len st = sumZ (map d_len st)) /\
+  (forall vol st, fan_volume vol st = sumZ (map vol st)) /\
+  (forall (ss : dict -> Z * Z) st, fan_stats ss st = (sumZ (map (fun s => fst (ss s)) st), sumZ (map (fun s => snd (ss s)) st))) /\
+  (forall W (chk : dict -> list W) st, fan_check chk st = concat (map chk st)) /\
+  (forall (f : dict -> dict * Z) st,
+     fan_remove f st = (map (fun s => fst (f s)) st, sumZ (map (fun s => snd (f s)) st))) /\
+  (forall cullf now tg,
+     shard_removal cullf agg_clear (env_of_now 0) = d_clear /\
+     shard_removal cullf agg_expire (env_of_now now) = d_expire now /\
+     shard_removal cullf agg_evict (env_of_tag tg) = d_evict tg /\
+     shard_removal cullf agg_cull (env_of_now now) = cullf) /\
+  (forall st, fan_iter agg_iter_t st = concat (map d_keys st)) /\
+  (forall st, fan_iter agg_reversed_t st = rev (concat (map d_keys st))) /\
+  (forall n, fan_transact_order n = seq 0 n).
+Proof.
+  repeat split.
+  - intros ss st. unfold fan_stats. cbn [agg_stats_t st_shards st_hits st_misses range pick]. rewrite !map_map. reflexivity.
+  - apply fan_remove_spec.
+  - intros st. unfold fan_iter. cbn [agg_reversed_t it_shards it_each range].
+    change (each EachBackward) with (fun s : dict => rev (d_keys s)).
+    rewrite <- concat_rev_rev, <- map_rev, map_map. reflexivity.
+Qed.
+
+(* ---------------- routing ---------------- *)
+Lemma bridge_hash_key h k :
+  hash_key h k = match k with
+                 | SBlob b => Z.land (adler32 b) 4294967295
+                 | SText s => Z.land (adler32 (utf8 h s)) 4294967295
+                 | SInt z => z mod 4294967295
+                 | SReal f => Z.land (adler32 (pack_d h f)) 4294967295
+                 | SNull => Z.land (adler32 (pack_d h FNaN)) 4294967295
+                 end.
+Proof. destruct k; reflexivity. Qed.
+
+(* the shard is a closed function of the database key Disk.put produced and of the shard count: no state, no salt *)
+Theorem routing_pure c c' h k k' n : put c k = put c' k' -> shard c h k n = shard c' h k' n.
+Proof. unfold shard. intros ->. reflexivity. Qed.
+
+Lemma shard_closed_form c h k n :
+  shard c h k n = match put c k with PutOk dk _ => Some (hash_key h dk mod n) | PutRaise => None end.
+Proof. unfold shard, shard_of, hash_of. destruct (put c k); reflexivity. Qed.
+
+Lemma shard_int c h z n : in_int64 z = true -> shard c h (VInt z) n = Some ((z mod 4294967295) mod n).
+Proof. intros H. rewrite shard_closed_form, put_spec, H. reflexivity. Qed.
+
+Lemma shard_float c h f n : shard c h (VFloat f) n = Some (Z.land (adler32 (pack_d h f)) 4294967295 mod n).
+Proof. rewrite shard_closed_form, put_spec. destruct f; reflexivity. Qed.
+
+(* FULL statement (refuted below):
+     forall c h k1 k2 n, key_domain k1 = true -> key_domain k2 = true -> key_eq k1 k2 = true -> 0 < n ->
+                         shard c h k1 n = shard c h k2 n.
+   1 and 1.0 are one key for Cache; 1 hashes to 1 % mask, 1.0 to adler32 of its 8 packed bytes. *)
+Theorem routing_respects_eq_refuted :
+  exists k1 k2 n,
+    key_domain k1 = true /\ key_domain k2 = true /\ key_eq k1 k2 = true /\ 0 < n /\
+    forall c h, pack_d h (FFin 1 0) = [63; 240; 0; 0; 0; 0; 0; 0] -> shard c h k1 n <> shard c h k2 n.
+Proof.
+  exists (VInt 1), (VFloat (FFin 1 0)), 8. repeat split; try reflexivity.
+  intros c h Hp. rewrite shard_int by reflexivity. rewrite shard_float. rewrite Hp.
+  vm_compute. discriminate.
+Qed.
+
+(* the same for the two zeros of binary64 (both are the key 0) and the integer 0 *)
+Theorem routing_zeros_refuted :
+  exists n, 0 < n /\
+    key_eq (VInt 0) (VFloat (FZero false)) = true /\ key_eq (VFloat (FZero false)) (VFloat (FZero true)) = true /\
+    forall c h, pack_d h (FZero false) = [0; 0; 0; 0; 0; 0; 0; 0] -> pack_d h (FZero true) = [128; 0; 0; 0; 0; 0; 0; 0] ->
+      shard c h (VInt 0) n <> shard c h (VFloat (FZero false)) n /\
+      shard c h (VFloat (FZero false)) n <> shard c h (VFloat (FZero true)) n.
+Proof.
+  exists 13. repeat split; try reflexivity;
+    rewrite ?shard_int by reflexivity; rewrite !shard_float; rewrite ?H, ?H0; vm_compute; discriminate.
+Qed.
+
+(* the excluded region: an int with a float, or two floats that are not the same float (0.0 / -0.0) *)
+Definition route_excluded (k1 k2 : pyval) : bool :=
+  match k1, k2 with
+  | VInt _, VFloat _ | VFloat _, VInt _ => true
+  | VFloat f, VFloat g => negb (fl_eqb f g)
+  | _, _ => false
+  end.
+
+Lemma key_eq_same k1 k2 : key_eq k1 k2 = true -> route_excluded k1 k2 = false -> k1 = k2.
+Proof.
+  unfold key_eq.
+  destruct k1 as [z1|f1|s1|b1|i1|b1], k2 as [z2|f2|s2|b2|i2|b2]; cbn [key_num route_excluded];
+    try discriminate; try (intros H _; apply pv_same_spec; exact H);
+    try (destruct (in_int64 z1); discriminate); try (destruct (in_int64 z2); discriminate);
+    try (destruct f1 as [|[]|[]|]; discriminate); try (destruct f2 as [|[]|[]|]; discriminate).
+  - destruct (in_int64 z1), (in_int64 z2); try discriminate.
+    + cbn. unfold dy_cmp, pow2. cbn. intros H _. destruct (z1 * 1 ?= z2 * 1) eqn:E; try discriminate.
+      apply Z.compare_eq in E. f_equal. lia.
+    + intros H _. apply pv_same_spec. exact H.
+  - intros _ H. apply negb_false_iff in H. apply (pv_same_spec (VFloat f1) (VFloat f2)). exact H.
+Qed.
+
+Theorem routing_respects_eq_partial c h k1 k2 n :
+  key_eq k1 k2 = true -> route_excluded k1 k2 = false -> shard c h k1 n = shard c h k2 n.
+Proof. intros H X. rewrite (key_eq_same k1 k2 H X). reflexivity. Qed.
+
+Example routing_partial_hyps_satisfiable :
+  key_eq (VStr [97]) (VStr [97]) = true /\ route_excluded (VStr [97]) (VStr [97]) = false /\
+  key_eq (VFloat (FFin 3 (-1))) (VFloat (FFin 3 (-1))) = true /\
+  route_excluded (VFloat (FFin 3 (-1))) (VFloat (FFin 3 (-1))) = false /\
+  key_eq (VInt 1) (VFloat (FFin 1 0)) = true /\ route_excluded (VInt 1) (VFloat (FFin 1 0)) = true.
+Proof. repeat split; reflexivity. Qed.
+
+(* the sharded cache over Python keys: any key identity at least as fine as the documented equality, histories
+   without an excluded pair *)
+Definition hash_or0 (c : codec) (h : hcodec) (k : pyval) : Z := match hash c h k with Some x => x | None => 0 end.
+
+Theorem refines_history_pyval (C : Type) (ceqb : C -> C -> bool) (cls : pyval -> C) (c : codec) (h : hcodec) :
+  (forall a b, ceqb a b = true <-> a = b) ->
+  forall n ops, 0 < n ->
+  (forall k1 k2, In k1 (history_keys ops) -> In k2 (history_keys ops) -> cls k1 = cls k2 ->
+                 key_eq k1 k2 = true /\ route_excluded k1 k2 = false) ->
+  Forall2 res_agree (snd (fan_run C ceqb cls (hash_or0 c h) n ops (fan_empty n))) (snd (dict_run C ceqb cls ops [])) /\
+  Permutation (merge (fst (fan_run C ceqb cls (hash_or0 c h) n ops (fan_empty n)))) (fst (dict_run C ceqb cls ops [])).
+Proof.
+  intros Hc n ops Hn Hk.
+  destruct (refines_history C ceqb cls (hash_or0 c h) Hc n ops Hn) as (A & B & _); [|split; assumption].
+  intros k1 k2 H1 H2 E. destruct (Hk k1 k2 H1 H2 E) as [Q X]. rewrite (key_eq_same k1 k2 Q X). reflexivity.
+Qed.
+
+(* ---------------- size limit ---------------- *)
+Local Open Scope Q_scope.
+
+Lemma inject_Z_nonzero n : (0 < n)%Z -> ~ inject_Z n == 0.
+Proof. intros H E. unfold Qeq in E. cbn in E. lia. Qed.
+
+(* every shard gets the same limit, and the n limits add up to the total (the given size_limit or the default) *)
+Theorem limit_divided given n :
+  (0 < n)%Z ->
+  inject_Z n * shard_limit given n == inject_Z (match given with Some l => l | None => default_size_limit end).
+Proof.
+  intros Hn. unfold shard_limit. rewrite bridge_shard_size_limit. field. apply inject_Z_nonzero. exact Hn.
+Qed.
+
+(* when the total is a multiple of the shard count the quotient is that integer *)
+Theorem limit_exact l n : (0 < n)%Z -> (n | l)%Z -> shard_size_limit l n == inject_Z (l / n).
+Proof.
+  intros Hn [q ->]. rewrite bridge_shard_size_limit, Z.div_mul by lia. rewrite inject_Z_mult. field.
+  apply inject_Z_nonzero. exact Hn.
+Qed.
+
+Example limit_default_8 : shard_limit None 8 == inject_Z 134217728.
+Proof. vm_compute. reflexivity. Qed.
